@@ -11,6 +11,10 @@ VARS = ["N", "M", "a", "b", "c", "s", "t"]          # kernel arguments, all `con
 MODES = ["serial", "openmp", "cuda", "hip", "opencl", "metal", "dpcpp"]
 LAUNCH_MODES = MODES[2:]
 HENV = {"ASAN_OPTIONS": "detect_leaks=0:abort_on_error=0:exitcode=66:allocator_may_return_null=1"}
+if os.environ.get("VERIF_LOOPS_PRELOAD"):
+    # mutation-testing aid (design-notes/C18.md): a shared object holding ONE re-compiled translation unit of
+    # libocca, interposed in front of the real library for the harness and the emulation programs only
+    HENV["LD_PRELOAD"] = os.environ["VERIF_LOOPS_PRELOAD"]
 
 # ----------------------------------------------------------------------------- expressions
 # tree: ('v',name) ('c',n) ('P',e) ('cast',e) ('un',op,e) ('bin',op,l,r) ('tern',c,t,f)
